@@ -508,13 +508,14 @@ func genModelWorld(r *Rng, prop string) *World {
 	c.PTags = 0
 	c.Coercers = r.P(0.4)
 	c.Widths = true
+	c.RawStrings = true
 	c.BigInts = true // struct tags are C10's and C14's subject (open finding F-TAGS); keys are schema keys here
 	root := GenNode(r, &c, 0, true)
 	if r.P(0.08) {
 		// long paths: a cold path builder has room for five segments
 		w.Family = "deep-chain"
 		c.MaxElems = 2
-		root = DeepChain(r, &c, 5+r.Intn(3))
+		root = DeepChain(r, &c, DeepSegments(r))
 	}
 	w.Schemas = []*Node{root}
 	no := 1 + r.Intn(4)
